@@ -65,6 +65,10 @@ type PathCtx struct {
 const (
 	stErrNil    uint64 = 1 << 62
 	stErrNonNil uint64 = 1 << 63
+	// the first bool result of the most recently inlined call, when it returned a constant on the current path
+	stBoolTrue  uint64 = 1 << 60
+	stBoolFalse uint64 = 1 << 61
+	stInlined          = stErrNil | stErrNonNil | stBoolTrue | stBoolFalse
 )
 
 // Resolve maps a parameter (or the local cell a parameter was spilled into) of an inlined function to the value
@@ -237,13 +241,22 @@ func (c *Ctx) runPaths(fn *ssa.Function, init uint64, rule *PathRule, depth int,
 						rule.Exit(pc, s, ins)
 					}
 					if parent != nil {
-						s &^= stErrNil | stErrNonNil
+						s &^= stInlined
 						if errIdx >= 0 && errIdx < len(x.Results) {
 							switch errNilness(x.Results[errIdx]) {
 							case 1:
 								s |= stErrNil
 							case 2:
 								s |= stErrNonNil
+							}
+						}
+						if bi := boolResultIdx(fn.Signature); bi >= 0 && bi < len(x.Results) {
+							if bv, isC := constBool(x.Results[bi]); isC {
+								if bv {
+									s |= stBoolTrue
+								} else {
+									s |= stBoolFalse
+								}
 							}
 						}
 					}
@@ -269,7 +282,7 @@ func (c *Ctx) runPaths(fn *ssa.Function, init uint64, rule *PathRule, depth int,
 									continue
 								}
 								inlined = true
-								for _, o := range c.runPaths(callee, s&^(stErrNil|stErrNonNil), rule, depth+1, pc.stack, memo, pc, ci) {
+								for _, o := range c.runPaths(callee, s&^stInlined, rule, depth+1, pc.stack, memo, pc, ci) {
 									next = append(next, run{o, df})
 								}
 								if pc.inlinedCalls == nil {
@@ -313,6 +326,9 @@ func (c *Ctx) runPaths(fn *ssa.Function, init uint64, rule *PathRule, depth int,
 					pc.alt = k
 					if s&(stErrNil|stErrNonNil) != 0 && pc.contradictsInlinedError(s, n.b, si) {
 						continue // the inlined callee returned a nil (non-nil) error on this path: the other side of the test is infeasible
+					}
+					if s&(stBoolTrue|stBoolFalse) != 0 && pc.contradictsInlinedBool(s, n.b, si) {
+						continue // the inlined callee returned a constant boolean on this path: the other side of the test is infeasible
 					}
 					if rule.Edge != nil {
 						var ok bool
@@ -669,6 +685,76 @@ func (pc *PathCtx) contradictsInlinedError(s uint64, from *ssa.BasicBlock, si in
 			return true
 		}
 		if !f.Eq && s&stErrNil != 0 {
+			return true
+		}
+	}
+	return false
+}
+
+// boolResultIdx: the index of the first bool result of a signature (-1: none).
+func boolResultIdx(sig *types.Signature) int {
+	for i := 0; i < sig.Results().Len(); i++ {
+		if bt, ok := sig.Results().At(i).Type().Underlying().(*types.Basic); ok && bt.Kind() == types.Bool {
+			return i
+		}
+	}
+	return -1
+}
+
+// contradictsInlinedBool: the edge tests the boolean result of a call that was analysed inline (`log, found, err :=
+// e.find(…); …; if found`), against the constant the callee returned on this path. The test may sit in a later block
+// than the call as long as no other inlined call lies between them.
+func (pc *PathCtx) contradictsInlinedBool(s uint64, from *ssa.BasicBlock, si int) bool {
+	for _, f := range edgeFacts(from, si) {
+		want, isC := constBool(f.Y)
+		if !isC {
+			continue
+		}
+		var call *ssa.Call
+		switch x := f.X.(type) {
+		case *ssa.Call:
+			if boolResultIdx(x.Call.Signature()) == 0 && x.Call.Signature().Results().Len() == 1 {
+				call = x
+			}
+		case *ssa.Extract:
+			if cl, ok := x.Tuple.(*ssa.Call); ok && x.Index == boolResultIdx(cl.Call.Signature()) {
+				call = cl
+			}
+		}
+		if call == nil || !pc.inlinedCalls[call] || !(call.Block() == from || call.Block().Dominates(from)) {
+			continue
+		}
+		// no other inlined call between the call and the test
+		clean := true
+		for v := range pc.inlinedCalls {
+			ins, ok := v.(ssa.Instruction)
+			if !ok || v == ssa.Value(call) {
+				continue
+			}
+			b := ins.Block()
+			if b == call.Block() {
+				after := false
+				for _, i2 := range b.Instrs {
+					if i2 == ssa.Instruction(call) {
+						after = true
+					} else if i2 == ins && after {
+						clean = false
+					}
+				}
+				continue
+			}
+			if call.Block().Dominates(b) && (b == from || b.Dominates(from)) {
+				clean = false
+			}
+		}
+		if !clean {
+			continue
+		}
+		value := want == f.Eq // what the edge says the result is
+		if value && s&stBoolFalse != 0 {
+			return true
+		}
+		if !value && s&stBoolTrue != 0 {
 			return true
 		}
 	}
